@@ -176,11 +176,16 @@ def check_subst(tier, seed):
                   len(jobs), fails, exhaustive=True, samples=[dict(model=str(models[0]))])
 
 
-PLACEMENTS = ('element-anonymous', 'global-type', 'local-in-global-type', 'local-in-named-group', 'local-in-group-of-group', 'extension-of-global-type')
+PLACEMENTS = ('element-anonymous', 'global-type', 'local-in-global-type', 'local-in-named-group', 'local-in-group-of-group', 'extension-of-global-type',
+              # the same unqualified local declarations in a schema document that has a target namespace, with and without that namespace declared as the DEFAULT namespace of
+              # the document (an xmlns binding of the schema file: the names of the local elements stay in no namespace, the wildcards of these models do not name the target)
+              'target-namespace', 'target-namespace-as-default')
 
 
 def placement_schema(m, where):
     body = cm.xsd(m); XS_ = cm.XS
+    if where.startswith('target-namespace'):
+        return f'<xs:schema {XS_} targetNamespace="urn:tns"' + (' xmlns="urn:tns"' if where.endswith('default') else '') + f'><xs:element name="r"><xs:complexType>{body}</xs:complexType></xs:element></xs:schema>'
     if where == 'element-anonymous': return f'<xs:schema {XS_}><xs:element name="r"><xs:complexType>{body}</xs:complexType></xs:element></xs:schema>'
     if where == 'global-type': return f'<xs:schema {XS_}><xs:complexType name="T">{body}</xs:complexType><xs:element name="r" type="T"/></xs:schema>'
     inner = f'<xs:element name="inner"><xs:complexType>{body}</xs:complexType></xs:element>'
